@@ -45,9 +45,17 @@ mod env_util {
     where
         Str: Into<Cow<'str, str>>,
     {
-        let mut outpath: Cow<str> = path.into();
+        let outpath: Cow<str> = path.into();
         let path = outpath.clone();
+        // The output is built in a single pass: `expanded` holds the expansion of
+        // `path[..copied]`; substituted values are never scanned again.
+        let mut expanded = String::new();
+        let mut copied = 0;
         for (match_start, _) in path.match_indices(ENV_PREFIX) {
+            if match_start < copied {
+                // inside a reference that has already been replaced
+                continue;
+            }
             let env_name_start = match_start + ENV_PREFIX_LEN;
             let (_, tail) = path.split_at(env_name_start);
             let mut cs = tail.chars();
@@ -68,18 +76,20 @@ mod env_util {
                     if valid {
                         if let Ok(env_value) = std::env::var(&env_name) {
                             let match_end = env_name_start + env_name.len() + ENV_SUFFIX_LEN;
-                            // This simply rewrites the entire outpath with all instances
-                            // of this var replaced. Could be done more efficiently by building
-                            // `outpath` as we go when processing `path`. Not critical.
-                            outpath = outpath
-                                .replace(&path[match_start..match_end], &env_value)
-                                .into();
+                            expanded.push_str(&path[copied..match_start]);
+                            expanded.push_str(&env_value);
+                            copied = match_end;
                         }
                     }
                 }
             }
         }
-        outpath
+        if copied == 0 {
+            // nothing was substituted
+            return outpath;
+        }
+        expanded.push_str(&path[copied..]);
+        expanded.into()
     }
 }
 
